@@ -297,4 +297,8 @@ def run(ctx):
         ctx.guard("counter", "reference", lambda: C03.check_counter_engine(ctx, P6, "chacha::reference", "K6"))
         ctx.guard("round-count", "reference", lambda: C03.check_round_loops(ctx, P6, "chacha::reference", [16, 12, 8, 7]))
         ctx.guard("hcore-words", "both", lambda: C03.check_output_ad(ctx, progs.get("K0"), P6))
+    from . import arx
+    got2 = []
+    ctx.guard("block-eq", "chacha-engines", lambda: got2.append(arx.check_engines(ctx, {k: progs[k] for k in ("K0", "K6") if k in progs}, families=("chacha",))))
+    ctx.check(got2 == [32], "floor", "block-eq", "both ChaCha engines: 2 x 16 pieces equal the same specification graphs, hence each other", "only %s ChaCha engine pieces were compared (expected 32)" % got2, key="floor:block-eq")
     ctx.not_decided += ["bit-identity of the SHA-256 lane-wise schedule arithmetic with the scalar schedule", "input alignment independence beyond the aligned-access rule"]
